@@ -33,6 +33,9 @@ static CASE_START_MS: AtomicU64 = AtomicU64::new(0);
 static CASE_LIMIT_MS: AtomicU64 = AtomicU64::new(0);
 
 thread_local!(static PANIC_MSG: std::cell::RefCell<Option<String>> = std::cell::RefCell::new(None));
+// results of the earlier calls of the current case (same thread): returned define table and text,
+// so that a later call can be fed with them ("defines_from": i, "text_from": i)
+thread_local!(static SAVED: std::cell::RefCell<Vec<(Option<Defines>, Option<String>)>> = std::cell::RefCell::new(Vec::new()));
 
 fn now_ms() -> u64 {
     use std::time::{SystemTime, UNIX_EPOCH};
@@ -338,6 +341,11 @@ fn get_bool(v: &Value, k: &str) -> bool {
 fn pp_result_to_json(r: &Result<(PreprocessedText, Defines), Error>, call: &Value, out: &mut Map<String, Value>) {
     match r {
         Ok((t, d)) => {
+            SAVED.with(|s| {
+                if let Some(l) = s.borrow_mut().last_mut() {
+                    *l = (Some(d.clone()), Some(t.text().to_string()));
+                }
+            });
             out.insert("outcome".into(), json!("ok"));
             out.insert("text".into(), json!(t.text()));
             if !get_bool(call, "no_origins") {
@@ -390,10 +398,20 @@ fn parse_result_to_json(
 }
 
 fn do_call(call: &Value) -> Value {
+    SAVED.with(|s| s.borrow_mut().push((None, None)));
     let f = call["fn"].as_str().unwrap_or("");
     let path = call.get("path").and_then(|x| x.as_str()).unwrap_or("top.sv").to_string();
     let text_in = call.get("text").and_then(|x| x.as_str()).map(|s| s.to_string());
-    let defs = defines_from_json(call.get("defines"));
+    let mut defs = defines_from_json(call.get("defines"));
+    if let Some(i) = call.get("defines_from").and_then(|x| x.as_u64()) {
+        if let Some(Some(d)) = SAVED.with(|s| s.borrow().get(i as usize).map(|x| x.0.clone())) {
+            defs = d;
+        }
+    }
+    let text_in = match call.get("text_from").and_then(|x| x.as_u64()) {
+        Some(i) => SAVED.with(|s| s.borrow().get(i as usize).and_then(|x| x.1.clone())).or(text_in),
+        None => text_in,
+    };
     let incdirs: Vec<String> = call
         .get("incdirs")
         .and_then(|x| x.as_array())
@@ -592,7 +610,10 @@ const STACK: usize = 512 << 20;
 fn run_calls_on_fresh_thread(calls: Vec<Value>) -> Vec<Value> {
     std::thread::Builder::new()
         .stack_size(STACK)
-        .spawn(move || calls.iter().map(guarded_call).collect::<Vec<_>>())
+        .spawn(move || {
+            SAVED.with(|s| s.borrow_mut().clear());
+            calls.iter().map(guarded_call).collect::<Vec<_>>()
+        })
         .unwrap()
         .join()
         .unwrap_or_else(|_| vec![json!({"outcome": "panic", "msg": "thread died"})])
